@@ -5,3 +5,10 @@ open Nitime.C07.Props
 #print axioms generated_copies
 #print axioms tridisolve_solves
 #print axioms tridisolve_mul_eq
+#print axioms fixSigns_pm
+#print axioms fixSigns_norm
+#print axioms fixSigns_convention
+#print axioms fixSigns_idem
+#print axioms concentration_is_rayleigh
+#print axioms interpRescale_unit
+#print axioms lowBias_spec
